@@ -172,6 +172,21 @@ def read_text(path):
         return f.read().decode('utf-8')
 
 
+SPELLINGS = ('UTF-8', 'utf8', 'utf_8', 'U8', 'utf-8')
+
+
+def spelling_probe(path, w_ref, n):
+    """the same file read again with the encoding named explicitly, by another spelling of the default codec name
+    (Python resolves all of them to the one UTF-8 codec): the loaded WBS must have the same meaning"""
+    enc = SPELLINGS[n % len(SPELLINGS)]
+    code, msg, w = attempt(lambda: read_csv(path, encoding=enc))
+    if code != 0:
+        return ['read_csv(encoding=%r) raises %s where read_csv() loads the file' % (enc, msg)]
+    if snap(w) != snap(w_ref):
+        return ['read_csv(encoding=%r) loads another WBS than read_csv()' % enc] + py_differences(w_ref, w)[:4]
+    return []
+
+
 def run_round(case, d):
     out = {}
     code, msg, w = attempt(lambda: build(case['wbs']))
@@ -192,6 +207,7 @@ def run_round(case, d):
         return out
     out['w1'] = snap(w1)
     out['py_diffs'] = py_differences(w, w1)[:12]
+    out['enc_diffs'] = spelling_probe(p1, w1, case.get('n', 0))
     out['w2code'], out['w2exc'], _ = attempt(lambda: write_csv(w1, p2))
     if out['w2code'] != 0:
         return out
@@ -214,13 +230,15 @@ def run_read(case, d):
     out['rcode'], out['rexc'], w1 = attempt(lambda: read_csv(p))
     if out['rcode'] == 0:
         out['w1'] = snap(w1)
+        out['enc_diffs'] = spelling_probe(p, w1, case.get('n', 0))
     return out
 
 
 def run_all(cases):
     res = []
     with tempfile.TemporaryDirectory(prefix='c13-') as d:
-        for c in cases:
+        for n, c in enumerate(cases):
+            c = dict(c, n=n)
             res.append(run_round(c, d) if c['kind'] == 'round' else run_read(c, d))
     return {'results': res, 'field_size_limit': csv.field_size_limit()}
 
